@@ -44,6 +44,7 @@ CATALOGUE = {
                            "  end select pick\n  wh: where (a > 0)\n    a = 6\n  elsewhere wh\n    a = 7\n  end where wh\n  as: associate (b => a(1))\n    b = 8\n  end associate as\n"
                            "  fa: forall (i = 1:n)\n    a(i) = 9\n  end forall fa\nend subroutine nm\n"),
     "two_units": "subroutine a\nend subroutine a\nfunction b()\n  b = 1\nend function b\n",
+    "duplicate_statements": "program d\n  integer :: i, j\n  i = 1\n  j = 2\n  i = 1\n  print *, i, j\n  j = 2\n  print *, i, j\nend program d\n",
     "anonymous_main": "integer :: a, b(3)\nreal :: x\na = 1\nif (a > 0) then\n  b(a) = 2\nend if\ncall s(a)\nend\nsubroutine s(k)\n  integer :: k\n  k = k + 1\nend subroutine s\n",
 }
 F2008_EXTRA = {
@@ -531,10 +532,11 @@ def main(argv):
                         except BaseException as e:  # noqa
                             fail("error#garbage_rejected", dict(source=src), "raised %s" % type(e).__name__)
                 # blank lines (and a cpp directive at the top of the file) around the offending statement do not move the location
-                for head_lines, after in (([], ["", ""]), (["#define VERIF 1"], ["", "", ""]), (["! leading comment", ""], [""])):
-                    src = "\n".join(head_lines + lines[:li] + ["  @@ not fortran @@"] + after + lines[li + 1:]) + "\n"
+                for head_lines, after, before in (([], ["", ""], []), (["#define VERIF 1"], ["", "", ""], []), (["! leading comment", ""], [""], []),
+                                                  ([], [], ["#define CHECK(a) call check(a) \\", ""]), ([], [""], ["#define TWO(a) a + \\", "   a", ""])):
+                    src = "\n".join(head_lines + lines[:li] + before + ["  @@ not fortran @@"] + after + lines[li + 1:]) + "\n"
                     cases += 1
-                    lineno = len(head_lines) + li + 1
+                    lineno = len(head_lines) + li + len(before) + 1
                     for kw in (dict(), dict(ignore_comments=False)):
                         try:
                             parse(src, "f2003", **kw)
@@ -542,7 +544,7 @@ def main(argv):
                         except FortranSyntaxError as e:
                             want = "at line %d\n>>>  @@ not fortran @@\n" % lineno
                             if not str(e).startswith(want):
-                                fail("error#names_offending_line", dict(source=src, line=lineno, blank_lines_after=len(after), options=kw), dict(message=str(e)[:120], expected_prefix=want))
+                                fail("error#names_offending_line", dict(source=src, line=lineno, blank_lines_after=len(after), lines_before=before, options=kw), dict(message=str(e)[:120], expected_prefix=want))
                         except BaseException as e:  # noqa
                             fail("error#garbage_rejected", dict(source=src), "raised %s" % type(e).__name__)
                 for garbage in ("@@ not fortran @@", "= = ="):
@@ -583,7 +585,9 @@ def main(argv):
                 # text after the keyword of #else / #endif (the usual '#endif /* MACRO */') belongs to the directive
                 trailing = ["#else /* !HAVE_MPI */", "#endif /* HAVE_MPI */", "#endif // X", "#else  ! not X",
                             # no blank between the keyword and what follows it
-                            "#if(defined(X))", "#if!defined(X)", "#elif(A)", "#include\"f.h\"", "#ifdef X", "#  if defined(Y)", "#define F(a,b) a+b"]
+                            "#if(defined(X))", "#if!defined(X)", "#elif(A)", "#include\"f.h\"", "#ifdef X", "#  if defined(Y)", "#define F(a,b) a+b",
+                            # followed by a blank line; the last line of the macro ending in a backslash (which joins only that blank line)
+                            "#define G 1\n", "#define CHECK(a) call check(a) \\\n", "#define TWO(a) a + \\\n   a\n"]
                 for d in directives[:: (1 if tier == "thorough" else 3)] + ([directives[-1]] if tier != "thorough" else []) + (trailing if tier == "thorough" or pos % 3 == 1 else []):
                     src = "\n".join(lines[:pos] + [d] + lines[pos:]) + "\n"
                     cases += 1
